@@ -65,20 +65,21 @@ type RunResult struct {
 }
 
 type Job struct {
-	Mode      string   `json:"mode"`
-	Prop      string   `json:"prop"`
-	Tier      string   `json:"tier"`
-	SeedBase  uint64   `json:"seed_base"`
-	From      int      `json:"from"`
-	Stride    int      `json:"stride"`
-	MaxRuns   int      `json:"max_runs"`
-	WallS     float64  `json:"wall_s"`
-	SelfCheck int      `json:"selfcheck_every"`
-	Known     []string `json:"known"`
-	Spec      *RunSpec `json:"spec,omitempty"`
-	WantSig   string   `json:"want_sig,omitempty"`
-	ShrinkS   float64  `json:"shrink_s,omitempty"`
-	Out       string   `json:"out"`
+	Mode       string   `json:"mode"`
+	Prop       string   `json:"prop"`
+	Tier       string   `json:"tier"`
+	SeedBase   uint64   `json:"seed_base"`
+	From       int      `json:"from"`
+	Stride     int      `json:"stride"`
+	MaxRuns    int      `json:"max_runs"`
+	WallS      float64  `json:"wall_s"`
+	SelfCheck  int      `json:"selfcheck_every"`
+	Known      []string `json:"known"`
+	Spec       *RunSpec `json:"spec,omitempty"`
+	WantSig    string   `json:"want_sig,omitempty"`
+	ShrinkS    float64  `json:"shrink_s,omitempty"`
+	Out        string   `json:"out"`
+	PerVariant int      `json:"per_variant,omitempty"`
 }
 
 type WorkerSummary struct {
@@ -332,7 +333,9 @@ func check(prop, tier string) int {
 	workers := meta.QuickWorkers
 	wall := meta.QuickS
 	selfEvery := 20
+	perVariant := meta.QuickSeeds
 	if tier == "thorough" {
+		perVariant = meta.ThoroughSeeds
 		workers = runtime.NumCPU() - 2
 		if workers < 2 {
 			workers = 2
@@ -354,7 +357,7 @@ func check(prop, tier string) int {
 		wg.Add(1)
 		go func(w int) {
 			defer wg.Done()
-			job := Job{Mode: "search", Prop: prop, Tier: tier, SeedBase: seed, From: w, Stride: workers, WallS: wall, SelfCheck: selfEvery, Known: knownSigs}
+			job := Job{Mode: "search", Prop: prop, Tier: tier, SeedBase: seed, From: w, Stride: workers, WallS: wall, SelfCheck: selfEvery, Known: knownSigs, PerVariant: perVariant}
 			lines, out, err := runWorker(bin, job, scratch, fmt.Sprintf("w%d", w), time.Duration(wall*6+120)*time.Second)
 			mu.Lock()
 			defer mu.Unlock()
@@ -500,18 +503,18 @@ func tail(s string, n int) string {
 }
 
 type ReplayFile struct {
-	Property  string    `json:"property"`
-	Signature string    `json:"signature"`
-	Clause    string    `json:"clause"`
-	Detail    string    `json:"detail"`
-	Spec      RunSpec   `json:"spec"`
-	FoundTape int       `json:"found_tape_len"`
-	ShrunkTo  int       `json:"shrunk_tape_len"`
-	Sample    any       `json:"scenario"`
-	Faults    any       `json:"faults"`
-	Trace     []string  `json:"trace_tail"`
-	Panics    []string  `json:"panics,omitempty"`
-	Note      string    `json:"note"`
+	Property  string   `json:"property"`
+	Signature string   `json:"signature"`
+	Clause    string   `json:"clause"`
+	Detail    string   `json:"detail"`
+	Spec      RunSpec  `json:"spec"`
+	FoundTape int      `json:"found_tape_len"`
+	ShrunkTo  int      `json:"shrunk_tape_len"`
+	Sample    any      `json:"scenario"`
+	Faults    any      `json:"faults"`
+	Trace     []string `json:"trace_tail"`
+	Panics    []string `json:"panics,omitempty"`
+	Note      string   `json:"note"`
 }
 
 func minimiseAndStore(bin, scratch, prop string, v RunResult, tier string) (string, bool) {
